@@ -39,6 +39,47 @@ def casesShape (id : IId) (r : Nat) (th1 th2 concl : Option Seq) (triv1 triv2 : 
 def casesM (s : Proof) (id : IId) (r : Nat) (th1 th2 concl : Option Seq) (triv1 triv2 : Bool) : Except Err Proof :=
   applyTactic s id (casesShape id r th1 th2 concl triv1 triv2)
 
+/-- `state.get_proof_item(new_id).rule == item.rule`. -/
+def sameRule (s : Proof) (new : IId) (r : Nat) : Bool :=
+  match findItem s new with
+  | some other => other.rule == r
+  | none => false
+
+/-- The "already proved" loop of `introduction.apply` over `cur_item.subproof.items[:-1]`: a line
+of the new subproof whose sequent an earlier visible line proves is identified with that line —
+a gap with any such line, an assumption / variable only with a line of the same rule. -/
+def closeIntro : Proof → List IId → List Item → Except Err Proof
+  | s, _, [] => .ok s
+  | s, rem, it :: rest =>
+    let cid := liveId rem it.id
+    match findItem s cid with
+    | none => .error .proofState
+    | some cur =>
+      match cur.th with
+      | none => .error .index
+      | some th =>
+        match findGoal s th cid with
+        | .error e => .error e
+        | .ok none => closeIntro s rem rest
+        | .ok (some new) =>
+          if it.rule = ruleSorry || sameRule s new it.rule then
+            match replaceId s cid new with
+            | .error e => .error e
+            | .ok s' => closeIntro s' (rem ++ [cid]) rest
+          else closeIntro s rem rest
+
+/-- `introduction.apply`: the goal line becomes a `subproof` line holding the exported lines of the
+`intros` proof term (`pt.export(prefix=id)`: ids `id.0, id.1, …`), then the "already proved" loop. -/
+def introM (s : Proof) (id : IId) (sub : List Item) : Except Err Proof :=
+  match findItem s id with
+  | none => .error .proofState
+  | some cur =>
+    if cur.rule ≠ ruleSorry then .error .assertion
+    else
+      match placeItem s id (.mk cur.id ruleSubproof cur.prevs cur.th true sub) with
+      | .error e => .error e
+      | .ok s1 => closeIntro s1 [] sub.dropLast
+
 /-- What a method that goes through `apply_tactic` advertises in `search`: the propositions of the
 gaps of the proof term (`[gap.prop for gap in pt.gaps]`), here the stated sequents of the exported
 `sorry` lines. -/
